@@ -220,6 +220,34 @@ theorem gapLe_of_notCovers (W : Mat) (alpha t : Vec) (eps : Rat) (a b : Vec)
   · rw [max_eq_right hd]; linarith
   · rw [max_eq_left hd]; positivity
 
+/-- `m(a,a) ≤ ε` for `ε ≥ 0`, a cone with at least one facet and positive `α` -/
+theorem gapLe_self (W : Mat) (alpha : Vec) (eps : Rat) (a : Vec) (heps : 0 ≤ eps)
+    (hne : ∃ n, n < W.length ∧ n < alpha.length) : gapLe W alpha eps a a = true := by
+  rw [gapLe_iff]
+  obtain ⟨n, h1, h2⟩ := hne
+  refine ⟨n, h1, h2, ?_⟩
+  unfold facetGap
+  rw [dot_vsub_self]
+  simpa using heps
+
+/-- `m(a,·) ≤ ε` is downward closed along domination -/
+theorem gapLe_mono (W : Mat) (alpha : Vec) (eps : Rat) (a k j : Vec)
+    (hal : ∀ n, ∀ h : n < alpha.length, 0 < alpha[n])
+    (hak : a.length = k.length) (hkj : k.length = j.length)
+    (h1 : gapLe W alpha eps a k = true) (h2 : dominates W k j = true) :
+    gapLe W alpha eps a j = true := by
+  rw [gapLe_iff] at h1 ⊢
+  rw [dominates_iff_get] at h2
+  obtain ⟨n, hn1, hn2, h⟩ := h1
+  refine ⟨n, hn1, hn2, le_trans ?_ h⟩
+  unfold facetGap
+  have hd := h2 n hn1
+  rw [dot_vsub _ _ _ hkj] at hd
+  rw [dot_vsub _ _ _ hak.symm, dot_vsub _ _ _ (hak.trans hkj).symm]
+  apply div_le_div_of_nonneg_right _ (le_of_lt (hal n hn2))
+  apply max_le_max (le_refl 0)
+  linarith
+
 /-! ### Prop-level readings of the executable conclusions -/
 
 theorem accA_iff (W : Mat) (K : Nat) (mu : Nat → Vec) (P : List Nat) :
